@@ -109,10 +109,11 @@ func IdentityID(i int) string {
 
 // World is one simulated network.
 type World struct {
-	mu    sync.Mutex
-	cond  *sync.Cond
-	Peers []*Peer
-	down  map[[2]int]bool
+	inflightGets int64 // block fetches (Dag().Get) currently inside the harness-owned fetch layer, parked ones included
+	mu           sync.Mutex
+	cond         *sync.Cond
+	Peers        []*Peer
+	down         map[[2]int]bool
 
 	topics map[string][]*subscription
 
@@ -123,6 +124,7 @@ type World struct {
 	Log         []*Message // every publish / direct send ever made (guarded by mu)
 
 	peerHolds  map[string]chan struct{}
+	peerHard   map[string]bool
 	peerParked map[string]*int64
 
 	pending int64 // items queued to a subscriber/emitter pump and not yet handed over
@@ -512,6 +514,10 @@ func (w *World) DeliverAllHeld() int {
 	}
 }
 
+// InflightFetches is the number of block fetches currently inside the harness-owned fetch layer: waiting for a
+// block to become reachable, parked by a gate, or being served.
+func (w *World) InflightFetches() int64 { return atomic.LoadInt64(&w.inflightGets) }
+
 // Pending is the number of events queued for a receiver but not yet taken.
 func (w *World) Pending() int64 { return atomic.LoadInt64(&w.pending) }
 
@@ -671,6 +677,8 @@ func (d *netDAG) AddMany(ctx context.Context, ns []ipld.Node) error {
 
 func (d *netDAG) Get(ctx context.Context, c cid.Cid) (ipld.Node, error) {
 	p := d.p
+	atomic.AddInt64(&p.W.inflightGets, 1)
+	defer atomic.AddInt64(&p.W.inflightGets, -1)
 	p.mu.Lock()
 	p.GetLog = append(p.GetLog, c)
 	var pf *ParkedFetch
